@@ -45,4 +45,49 @@ PROPS = {
         assumptions=["EmfBuilder::build forwards `validation` unchanged", "derive(Default) for Validation is all-false"],
         unreached=["ValueWriter::metric duplicate / dimension checks (hashbrown entry_ref, peekable)", "EntryDimensions config checks", "missing-dimension sweep in finish()"],
     ),
+    "C01": dict(
+        verus=[("bgq", {}, ["push", "consume", "report_validation_error", "drain_until_deadline"])],
+        technique="Verus function contracts on the extracted real Inner::push / Receiver::consume / drain_until_deadline over a ghost log of the stream",
+        level_text="Deductive proof (Verus/z3) of the writer side of the queue: every popped entry is handed to the stream exactly once, in pop order, for every stream result (Ok/Validation/Io), "
+                   "nothing but the in-band error report is added, no popped entry is dropped on the deadline path, and push hands every entry to the queue. "
+                   "Producer/consumer interleavings are crossbeam's (assumed linearizable FIFO).",
+        level_note="Trusted: EntryIoStream ghost log (what 'handing an entry to a stream' means), crossbeam ArrayQueue (FIFO, force_push displaces the oldest), Parker/Unparker only affect latency, "
+                   "statistic counters treated as mathematical integers (R9), clock and rate limiter nondeterministic (R2, R10, R11, R13), R1, termination of the pop loop.",
+        explanation="sequential core of the background queue against a ghost stream log",
+        assumptions=["crossbeam ArrayQueue is a linearizable FIFO", "park/unpark only affect latency: park_deadline returns no later than next_flush",
+                     "Receiver::run wiring (drain -> wakers -> park) is read, not proved", "BoxEntrySink::append_any forwards entry.boxed() once (trait-object dispatch, not extracted)"],
+        unreached=["Receiver::run", "BackgroundQueueBuilder::do_build (thread spawn)", "BoxEntrySink / BoxEntry forwarding (see C15)"],
+    ),
+    "C05": dict(
+        verus=[("bgq", {}, ["shut_down", "flush_stream", "drain_until_deadline", "consume", "drop", "forget"])],
+        technique="Verus function contracts / anchored assertions on the extracted real Receiver::shut_down, flush_stream, BackgroundQueueJoinHandle::drop and forget",
+        level_text="Deductive proof (Verus/z3) of the shutdown order: shut_down drains (every popped entry consumed), then flushes exactly once, then closes the stream with that flush as the last thing it saw; "
+                   "dropping a live join handle stores the signal, then unparks, then joins; a forgotten handle does none of it. Thread termination and the forget path of run() are not reached.",
+        level_note="Trusted: as C01, plus std thread::JoinHandle::join, AtomicBool::store, and that Receiver::run calls shut_down when it sees the signal (read, not proved). "
+                   "The clause 'after forget the thread exits once the last queue handle is dropped' is NOT decided here.",
+        explanation="shutdown order of the background queue",
+        assumptions=["Receiver::run returns self.shut_down() on the shutdown signal (read, not proved)", "Drop runs exactly once"],
+        unreached=["Receiver::run (forget path: Arc::get_mut)", "AttachHandle::drop (macro-generated)", "entries appended after shutdown are discarded"],
+    ),
+    "C09": dict(
+        verus=[("bgq", {}, ["push"])],
+        technique="Verus function contract on the extracted real Inner::push (effect-witness predicates on the crossbeam calls)",
+        level_text="Deductive proof (Verus/z3) that push is loop-free and lock-free, hands the entry to force_push on every path (never drops or returns it itself), "
+                   "reports one overflow to the recorder when force_push displaced an entry, and unparks the writer. That force_push displaces the OLDEST entry and keeps the rest in order is crossbeam's contract (assumed).",
+        level_note="Trusted: crossbeam ArrayQueue::force_push semantics; absence of a spurious overflow increment (a negative fact about a &self call) is not expressible and not claimed; R1/R2.",
+        explanation="push path of the bounded queue",
+        assumptions=["ArrayQueue::force_push displaces the oldest element and preserves the order of the rest", "capacity reaches ArrayQueue::new unchanged (do_build, read not proved)"],
+        unreached=["BackgroundQueueBuilder::capacity / do_build"],
+    ),
+    "C03": dict(
+        verus=[("emf_value", {}, ["write_observation", "write_metric_value", "write_metric"])],
+        technique="Verus function contracts on the extracted real write_observation / write_metric (payload-carrying tokens): counts, skip rule and metric declaration",
+        level_text="Deductive proof (Verus/z3), for every observation and multiplicity, that an unsigned observation is written as that integer with count = multiplicity, a float as its clamp with count = multiplicity, "
+                   "a repeated one with count = occurrences x multiplicity saturating at u64::MAX, NaN exactly skipped; that values and counts stay aligned; and that the metric declaration carries the name, "
+                   "the unit iff not None, StorageResolution 1 iff high-resolution, and is absent for no-metric or unusable metrics. Timestamp, namespace replication and dimension sets (finish) are not reached.",
+        level_note="Trusted: as C02. Float VALUES are uninterpreted in Verus (the mean total/occurrences and the clamp are named spec functions); their numeric correctness is left to the Kani group when it runs.",
+        explanation="leaf arithmetic and declaration of one metric",
+        assumptions=["float division and clamp are the IEEE operations of the target (uninterpreted in Verus)"],
+        unreached=["EntryWriter::finish (timestamp millis, namespace replication, dimension arrays)", "ValueWriter::metric routing to per-dimension-set buffers", "EntryDimensions cartesian product"],
+    ),
 }
